@@ -1,5 +1,6 @@
 import Proofs.DkgNonzero
 import Proofs.DkgBlame
+import Proofs.DkgJoint
 
 /-! Agreement inside Joint-Feldman, instance by instance.
 
@@ -359,5 +360,201 @@ theorem run_noblame_joint (s : St O) (inv : Inv s) (A : Nat) (hA : A ≠ s.deale
           (by rw [c.2.1]; exact h'.2)
         exact this
   exact key l s inv hA hd hon (run_noblame s inv A hA hAme (relevantOnly A s.dealer l) hl).1
+
+
+/-! ### from the instances to the result of Joint-Feldman's `End` -/
+
+/-- what Joint `End` uses of an instance, publicly: the settled verdict and, if the dealer is qualified, its vector -/
+def pview (s : St O) : Bool × Option O.Vec :=
+  let t := (FvssQ.settle s).1
+  (t.disqualified, if t.disqualified then none else t.vA)
+
+theorem pview_eq (s : St O) : pview s =
+    if s.disqualified = true ∨ unanswered s = true then (true, none) else (false, s.vA) := by
+  unfold pview unanswered
+  rw [settle_eq]
+  by_cases hd : s.disqualified = true
+  · simp [hd]
+  · have hd' : s.disqualified = false := by simpa using hd
+    by_cases hu : (s.complaints.any fun kc => kc.2.received && !kc.2.answerReceived) = true
+    · simp [hd', hu]
+    · have hu' : (s.complaints.any fun kc => kc.2.received && !kc.2.answerReceived) = false := by simpa using hu
+      simp [hd', hu']
+
+theorem pview_pubEq {zme : Nat} {a : St O} {z : St (shadowOps O zme)} (h : PubEq a z) : pview a = pview z := by
+  rw [pview_eq, pview_eq]
+  unfold unanswered
+  rw [← h.disq, ← h.tbl, ← h.vA]
+
+theorem pview_relP {s t : St O} (h : RelP s t) : pview s = pview t := by
+  rw [pview_eq, pview_eq]
+  unfold unanswered
+  rcases h with h | h
+  · simp [h.1, h.2]
+  · obtain ⟨_, _, _, _, _, _, g7, _, _, _, _, g12, g13, _, _⟩ := h
+    rw [g13, g7, List.Perm.any_eq g12]
+
+/-- the public view of the final state, from the shadow's -/
+theorem pview_agree (size threshold dealer ma mb : Nat) (hd : dealer < size) (hs : size ≤ 256)
+    (hma : ma < size) (hmb : mb < size) (hmad : ma ≠ dealer) (hmbd : mb ≠ dealer)
+    (ra1 ra2 ra3 rb1 rb2 rb3 : List Dl)
+    (ba1 : ∀ e ∈ ra1, e.sender < size) (ba2 : ∀ e ∈ ra2, e.sender < size) (ba3 : ∀ e ∈ ra3, e.sender < size)
+    (bb1 : ∀ e ∈ rb1, e.sender < size) (bb2 : ∀ e ∈ rb2, e.sender < size) (bb3 : ∀ e ∈ rb3, e.sender < size)
+    (h1 : ∀ c, stream (zR1 (fresh O size threshold ma dealer) ra1) c = stream (zR1 (fresh O size threshold mb dealer) rb1) c)
+    (h2 : ∀ c, stream (zR2 (fresh O size threshold ma dealer) ra1 ra2) c =
+      stream (zR2 (fresh O size threshold mb dealer) rb1 rb2) c)
+    (h3 : ∀ c, stream (zR3 (fresh O size threshold ma dealer) ra1 ra2 ra3) c =
+      stream (zR3 (fresh O size threshold mb dealer) rb1 rb2 rb3) c) :
+    pview (final (fresh O size threshold ma dealer) ra1 ra2 ra3) =
+      pview (final (fresh O size threshold mb dealer) rb1 rb2 rb3) := by
+  have zi : ZInv (freshZ O size threshold size dealer) :=
+    ⟨rfl, rfl, fun kc hkc => (by cases hkc), Nat.le_refl _, hd, hs⟩
+  have aiA : AInv (fresh O size threshold ma dealer) := ⟨inv_fresh size threshold ma dealer hmad, hma, fun h => by cases h⟩
+  have aiB : AInv (fresh O size threshold mb dealer) := ⟨inv_fresh size threshold mb dealer hmbd, hmb, fun h => by cases h⟩
+  have pA : PubEq (fresh O size threshold ma dealer) (freshZ O size threshold size dealer) :=
+    ⟨rfl, rfl, rfl, rfl, rfl, rfl, rfl, rfl, rfl⟩
+  have pB : PubEq (fresh O size threshold mb dealer) (freshZ O size threshold size dealer) :=
+    ⟨rfl, rfl, rfl, rfl, rfl, rfl, rfl, rfl, rfl⟩
+  have fA := shadow_final aiA zi pA ra1 ra2 ra3 ba1 ba2 ba3
+  have fB := shadow_final aiB zi pB rb1 rb2 rb3 bb1 bb2 bb3
+  have hz : size ≠ dealer := by omega
+  have rel := final_relP (freshZ O size threshold size dealer) (inv_freshZ size threshold size dealer hz) _ _ _ _ _ _ h1 h2 h3
+  rw [pview_pubEq fA, pview_pubEq fB]
+  exact pview_relP rel
+
+/-- **the public view of an instance agrees** (verdict after `End`'s settling and, if qualified, the dealer's vector),
+    on the full broadcast streams of a Joint-Feldman execution -/
+theorem pview_agree_instance (size threshold dealer ma mb : Nat) (hd : dealer < size) (hs : size ≤ 256)
+    (hma : ma < size) (hmb : mb < size) (hmad : ma ≠ dealer) (hmbd : mb ≠ dealer) (hab : ma ≠ mb)
+    (ra1 ra2 ra3 rb1 rb2 rb3 : List Dl)
+    (ba1 : ∀ e ∈ ra1, e.sender < size) (ba2 : ∀ e ∈ ra2, e.sender < size) (ba3 : ∀ e ∈ ra3, e.sender < size)
+    (bb1 : ∀ e ∈ rb1, e.sender < size) (bb2 : ∀ e ∈ rb2, e.sender < size) (bb3 : ∀ e ∈ rb3, e.sender < size)
+    (n1 : NetD dealer ma mb ra1 rb1 (bR1 (fresh O size threshold ma dealer) ra1) (bR1 (fresh O size threshold mb dealer) rb1))
+    (n2 : NetD dealer ma mb ra2 rb2 (bR2 (fresh O size threshold ma dealer) ra1 ra2)
+      (bR2 (fresh O size threshold mb dealer) rb1 rb2))
+    (n3 : NetD dealer ma mb ra3 rb3 (bR3 (fresh O size threshold ma dealer) ra1 ra2 ra3)
+      (bR3 (fresh O size threshold mb dealer) rb1 rb2 rb3)) :
+    pview (final (fresh O size threshold ma dealer) ra1 ra2 ra3) =
+      pview (final (fresh O size threshold mb dealer) rb1 rb2 rb3) := by
+  have hd256 : dealer < 256 := by omega
+  have aiA : AInv (fresh O size threshold ma dealer) := ⟨inv_fresh size threshold ma dealer hmad, hma, fun h => by cases h⟩
+  have aiB : AInv (fresh O size threshold mb dealer) := ⟨inv_fresh size threshold mb dealer hmbd, hmb, fun h => by cases h⟩
+  have fA : final (fresh O size threshold ma dealer) (relevantOnly mb dealer ra1) (relevantOnly mb dealer ra2)
+        (relevantOnly mb dealer ra3) = final (fresh O size threshold ma dealer) ra1 ra2 ra3 ∧
+      bR1 (fresh O size threshold ma dealer) (relevantOnly mb dealer ra1) = bR1 (fresh O size threshold ma dealer) ra1 ∧
+      bR2 (fresh O size threshold ma dealer) (relevantOnly mb dealer ra1) (relevantOnly mb dealer ra2) =
+        bR2 (fresh O size threshold ma dealer) ra1 ra2 ∧
+      bR3 (fresh O size threshold ma dealer) (relevantOnly mb dealer ra1) (relevantOnly mb dealer ra2)
+        (relevantOnly mb dealer ra3) = bR3 (fresh O size threshold ma dealer) ra1 ra2 ra3 :=
+    filter_exec (fresh O size threshold ma dealer) (inv_fresh size threshold ma dealer hmad) mb hmbd hd256 ra1 ra2 ra3
+  have fB : final (fresh O size threshold mb dealer) (relevantOnly ma dealer rb1) (relevantOnly ma dealer rb2)
+        (relevantOnly ma dealer rb3) = final (fresh O size threshold mb dealer) rb1 rb2 rb3 ∧
+      bR1 (fresh O size threshold mb dealer) (relevantOnly ma dealer rb1) = bR1 (fresh O size threshold mb dealer) rb1 ∧
+      bR2 (fresh O size threshold mb dealer) (relevantOnly ma dealer rb1) (relevantOnly ma dealer rb2) =
+        bR2 (fresh O size threshold mb dealer) rb1 rb2 ∧
+      bR3 (fresh O size threshold mb dealer) (relevantOnly ma dealer rb1) (relevantOnly ma dealer rb2)
+        (relevantOnly ma dealer rb3) = bR3 (fresh O size threshold mb dealer) rb1 rb2 rb3 :=
+    filter_exec (fresh O size threshold mb dealer) (inv_fresh size threshold mb dealer hmbd) ma hmad hd256 rb1 rb2 rb3
+  have sub : ∀ (A : Nat) (l : List Dl), (∀ e ∈ l, e.sender < size) → ∀ e ∈ relevantOnly A dealer l, e.sender < size :=
+    fun A l h e he => h e (List.mem_filter.1 he).1
+  have N1 : Net ma mb (relevantOnly mb dealer ra1) (relevantOnly ma dealer rb1)
+      (bR1 (fresh O size threshold ma dealer) (relevantOnly mb dealer ra1))
+      (bR1 (fresh O size threshold mb dealer) (relevantOnly ma dealer rb1)) := by
+    rw [fA.2.1, fB.2.1]; exact net_of_netD hab n1
+  have N2 : Net ma mb (relevantOnly mb dealer ra2) (relevantOnly ma dealer rb2)
+      (bR2 (fresh O size threshold ma dealer) (relevantOnly mb dealer ra1) (relevantOnly mb dealer ra2))
+      (bR2 (fresh O size threshold mb dealer) (relevantOnly ma dealer rb1) (relevantOnly ma dealer rb2)) := by
+    rw [fA.2.2.1, fB.2.2.1]; exact net_of_netD hab n2
+  have N3 : Net ma mb (relevantOnly mb dealer ra3) (relevantOnly ma dealer rb3)
+      (bR3 (fresh O size threshold ma dealer) (relevantOnly mb dealer ra1) (relevantOnly mb dealer ra2) (relevantOnly mb dealer ra3))
+      (bR3 (fresh O size threshold mb dealer) (relevantOnly ma dealer rb1) (relevantOnly ma dealer rb2) (relevantOnly ma dealer rb3)) := by
+    rw [fA.2.2.2, fB.2.2.2]; exact net_of_netD hab n3
+  have := pview_agree (O := O) size threshold dealer ma mb hd hs hma hmb hmad hmbd
+    (relevantOnly mb dealer ra1) (relevantOnly mb dealer ra2) (relevantOnly mb dealer ra3)
+    (relevantOnly ma dealer rb1) (relevantOnly ma dealer rb2) (relevantOnly ma dealer rb3)
+    (sub mb ra1 ba1) (sub mb ra2 ba2) (sub mb ra3 ba3) (sub ma rb1 bb1) (sub ma rb2 bb2) (sub ma rb3 bb3)
+    (streams_of_net hab N1 _ _ (fun c => (stream_zR _ aiA (relevantOnly mb dealer ra1) (relevantOnly mb dealer ra2) (relevantOnly mb dealer ra3) c).1) (fun c => (stream_zR _ aiB (relevantOnly ma dealer rb1) (relevantOnly ma dealer rb2) (relevantOnly ma dealer rb3) c).1))
+    (streams_of_net hab N2 _ _ (fun c => (stream_zR _ aiA (relevantOnly mb dealer ra1) (relevantOnly mb dealer ra2) (relevantOnly mb dealer ra3) c).2.1) (fun c => (stream_zR _ aiB (relevantOnly ma dealer rb1) (relevantOnly ma dealer rb2) (relevantOnly ma dealer rb3) c).2.1))
+    (streams_of_net hab N3 _ _ (fun c => (stream_zR _ aiA (relevantOnly mb dealer ra1) (relevantOnly mb dealer ra2) (relevantOnly mb dealer ra3) c).2.2) (fun c => (stream_zR _ aiB (relevantOnly ma dealer rb1) (relevantOnly ma dealer rb2) (relevantOnly ma dealer rb3) c).2.2))
+  rw [fA.1, fB.1] at this
+  exact this
+
+/-- the public part of what Joint `End` computes from its instances: `none` = failure, else the group key and the
+    vector of public key shares -/
+def jpub (size threshold : Nat) (L : List (St O)) : Option (Bytes × List Bytes) :=
+  let pv := L.map pview
+  let disq := (pv.filter (·.1)).length
+  if disq > threshold ∨ size - disq ≤ threshold then none
+  else match O.sumVecs (pv.filterMap (·.2)) with
+    | none => none
+    | some v => if O.groupKeyIsIdentity v then none else some (O.groupKey v, O.pubShares v)
+
+/-- **Joint `End` agrees publicly as soon as every instance does**: two participants whose `n` instances have
+    pairwise the same public view compute the same public result -/
+theorem jpub_of_pviews (size threshold : Nat) (LA LB : List (St O)) (h : LA.map pview = LB.map pview) :
+    jpub size threshold LA = jpub size threshold LB := by
+  unfold jpub
+  rw [h]
+
+
+theorem pview_count (L : List (St O)) :
+    ((L.map pview).filter (·.1)).length =
+      ((L.map (fun s => (FvssQ.settle s).1)).filter (·.disqualified)).length := by
+  induction L with
+  | nil => rfl
+  | cons s t ih =>
+    simp only [List.map_cons, List.filter_cons]
+    have h1 : (pview s).1 = (FvssQ.settle s).1.disqualified := rfl
+    rw [h1]
+    cases (FvssQ.settle s).1.disqualified <;> simp [ih]
+
+theorem pview_vecs (L : List (St O)) :
+    (L.map pview).filterMap (·.2) =
+      ((L.map (fun s => (FvssQ.settle s).1)).filter (fun s => !s.disqualified)).filterMap (·.vA) := by
+  induction L with
+  | nil => rfl
+  | cons s t ih =>
+    simp only [List.map_cons, List.filter_cons, List.filterMap_cons]
+    have h2 : (pview s).2 = if (FvssQ.settle s).1.disqualified then none else (FvssQ.settle s).1.vA := rfl
+    rw [h2]
+    cases hd : (FvssQ.settle s).1.disqualified
+    · simp only [Bool.false_eq_true, if_false, Bool.not_false, if_true, List.filterMap_cons]
+      cases (FvssQ.settle s).1.vA <;> simp [ih]
+    · simp [ih]
+
+/-- the participant's own combined private share: the sum of its shares in the qualified instances -/
+def jshare (L : List (St O)) : Nat :=
+  ((L.map (fun s => (FvssQ.settle s).1)).filter (fun s => !s.disqualified)).foldl (fun acc s => O.addScalar acc s.x) 0
+
+/-- **Joint `End` returns the public result together with the participant's own combined share** (tie between
+    `jpub` and the model of `JointFeldman.End`) -/
+theorem jres_jpub (size threshold : Nat) (L : List (St O)) :
+    jres size threshold L =
+      match jpub size threshold L with
+      | none => .failure
+      | some Yys => if jshare L = 0 then .failure else .keys (jshare L) Yys.1 Yys.2 := by
+  unfold jres jpub jshare
+  simp only []
+  rw [pview_count, pview_vecs]
+  split
+  · rfl
+  · cases O.sumVecs (((L.map fun s => (FvssQ.settle s).1).filter fun s => !s.disqualified).filterMap (·.vA)) with
+    | none => rfl
+    | some v =>
+      simp only []
+      by_cases hx : (((L.map fun s => (FvssQ.settle s).1).filter fun s => !s.disqualified).foldl
+          (fun acc s => O.addScalar acc s.x) 0) = 0
+      · rw [if_pos hx]
+        by_cases hi : O.groupKeyIsIdentity v = true
+        · rw [if_pos hi]
+        · rw [if_neg hi]
+          show Res.failure = if _ = 0 then Res.failure else _
+          rw [if_pos hx]
+      · rw [if_neg hx]
+        by_cases hi : O.groupKeyIsIdentity v = true
+        · rw [if_pos hi, if_pos hi]
+        · rw [if_neg hi, if_neg hi]
+          show _ = if _ = 0 then Res.failure else _
+          rw [if_neg hx]
 
 end Proofs.DkgAgree
